@@ -13,7 +13,7 @@ CHECKS = {
     "C18": dict(
         level="exploration",
         runs=[dict(name="getopt", target="h_getopt", args=[])],
-        deadline=dict(quick=150, thorough=900),
+        deadline=dict(quick=300, thorough=1350),
         parallel_runs=1,
         rule=("Every argument vector of tokens from the stated alphabets up to the stated length is parsed by the real "
               "GETOPT/GETOPT_SWITCH loop of each option table (after optreset = 1; as the first parse of a forked process; "
